@@ -53,7 +53,8 @@ theorem trimNotDue_of_record (fs : FS) (now t : Int) (hn0 : 0 ≤ now) (hn1 : no
   have hd : durSub now (t * second) = now - t * second :=
     durSub_exact _ _ (by simp only [hour, day, second] at *; omega) (by simp only [hour, day, second] at *; omega)
   simp only [trimNotDue, hlt, hd, Gen.Cache.trimNotDue, durations.1, durations.2.1, Bool.and_eq_true, decide_eq_true_eq]
-  exact ⟨h2, by omega⟩
+  -- (insensitive to the order of the two comparisons in the source)
+  constructor <;> first | exact h2 | omega
 
 /-- If a trim completed less than a day ago (and not more than an hour in the future), Trim does nothing at all:
 no file is removed or touched, `trim.txt` included. -/
